@@ -22,7 +22,7 @@ BOUND = {"quick": "all 19683 windows; all 576 impulses x 6 polylines x layers 0.
 ASSUMPTIONS = ["PIL truncates fractional pixel coordinates toward zero; all placements keep coordinates positive",
                "the window of the LAST vertex of a polyline is not part of the integrated band (the walk stops before the end point); images are dark there so the convention does not matter in the configuration sweep; the impulse sweep reports it",
                "'equal for all interfaces of a uniformly bright image' is checked without integration (with integration the band size per unit length depends on the direction of the polyline)"]
-REQUIRED_TAGS = {"all": ["windows", "impulses", "integrate", "average", "float_image", "uint8_image", "uniform_image", "rescaled", "repeated_interface", "diagonal", "curved", "zero_intensity_interface"]}
+REQUIRED_TAGS = {"all": ["windows", "impulses", "integrate", "average", "float_image", "uint8_image", "uniform_image", "rescaled", "repeated_interface", "diagonal", "curved", "zero_intensity_interface", "defaults_omitted"]}
 
 POLYLINES = {
     "horizontal": [(4, 6), (7, 6), (10, 6), (13, 6)],
@@ -246,6 +246,24 @@ class Configs(ProductSystem):
             tags.append("repeated_interface")
         res, ex = fsutil.call(fm.get_intensities, edges, img, cfg["integrate"], cfg["normalize"], cfg["layers"], rescale=rescale, offset=offset)
         viol, known = [], []
+        # the same call with every argument that equals its default (integrate=False, normalize='average', layers=1,
+        # rescale=[1, 1], offset=[0, 0]) left out
+        kw = {}
+        if cfg["integrate"]:
+            kw["integrate"] = True
+        if cfg["normalize"] != "average":
+            kw["normalize"] = cfg["normalize"]
+        if cfg["layers"] != 1:
+            kw["layers"] = cfg["layers"]
+        if cfg["place"] != 0:
+            kw["rescale"], kw["offset"] = rescale, offset
+        if len(kw) < 5 and ex is None and cfg["list"] == "plain":
+            edges2 = [big_edge(p, i) for i, p in enumerate(polys)]
+            res2, ex2 = fsutil.call(fm.get_intensities, edges2, img, **kw)
+            tags.append("defaults_omitted")
+            if ex2 is not None or sorted(res2) != sorted(res) or any(abs(float(res2[i]) - float(res[i])) > 1e-12 * max(1.0, abs(float(res[i]))) for i in res):
+                viol.append({"what": "get_intensities gives a different answer when arguments equal to their defaults are omitted",
+                             "detail": {"omitted_call": {k_: str(v_) for k_, v_ in kw.items()}, "exc": fsutil.exc_str(ex2) if ex2 else None}})
         if ex is not None and cfg["normalize"] == "average":
             raw = []
             for pts_ in [[(v.x, v.y) for v in be.vertices] for be in edges]:
